@@ -92,7 +92,7 @@ theorem liftover_chunk_without_sequence (chain : List HLevel) (c : HLevel) (abov
     rw [List.any_eq_true]
     have hmem : c ∈ chain := List.dropWhile_subset _ (by rw [hd]; simp)
     have hty : (c.ty != .chunk) = false := by
-      have := List.head_dropWhile_not (fun l : HLevel => l.ty != .chunk) chain (by rw [hd]; simp)
+      have := List.head_dropWhile_not (fun l : HLevel => l.ty != .chunk) (l := chain) (by rw [hd]; simp)
       simpa [hd] using this
     exact ⟨c, hmem, by simpa using hty⟩
   unfold liftoverParents
